@@ -584,8 +584,56 @@ func ruleL21(p *Prog, r *Report) {
 					unbounded = append(unbounded, c)
 				}
 			}
+			// an explicit guard: a dominating rejection of len(x) > K (or >= K+1) with K * stride within the head's range
+			if len(unbounded) > 0 {
+				stride := int64(1)
+				var lenCall ssa.Value
+				switch e := canonConv(cv.X).(type) {
+				case *ssa.BinOp:
+					if e.Op == token.MUL {
+						if k, ok := constInt(e.Y); ok {
+							stride, lenCall = k, canonConv(e.X)
+						} else if k, ok := constInt(e.X); ok {
+							stride, lenCall = k, canonConv(e.Y)
+						}
+					}
+				case *ssa.Call:
+					lenCall = e
+				}
+				limit := int64(1)<<(8*uint(w)) - 1
+				if lc, ok := lenCall.(*ssa.Call); ok && len(lc.Call.Args) == 1 {
+					for d := in.Block(); d != nil; d = d.Idom() {
+						ifi, ok := d.Instrs[len(d.Instrs)-1].(*ssa.If)
+						if !ok || d == in.Block() {
+							continue
+						}
+						bo, ok := ifi.Cond.(*ssa.BinOp)
+						if !ok {
+							continue
+						}
+						k, isK := constInt(canonConv(bo.Y))
+						gl, isL := canonConv(bo.X).(*ssa.Call)
+						if !isK || !isL || len(gl.Call.Args) != 1 || !sameValue(gl.Call.Args[0], lc.Call.Args[0]) {
+							continue
+						}
+						if bi, ok := gl.Call.Value.(*ssa.Builtin); !ok || bi.Name() != "len" {
+							continue
+						}
+						maxLen := int64(-1)
+						switch bo.Op {
+						case token.GTR:
+							maxLen = k
+						case token.GEQ:
+							maxLen = k - 1
+						}
+						if maxLen >= 0 && maxLen*stride <= limit && edgeDominates(d, 1, in.Block()) {
+							unbounded = nil
+						}
+					}
+				}
+			}
 			r.Decide(len(unbounded) == 0, R, cons, p.InstrPos(in),
-				"the list is only ever encoded inside size-limited slabs: its length is bounded by the slab size (L5: at most 65535 bytes)",
+				"the list is only ever encoded inside size-limited slabs (or an explicit guard bounds it): its length is bounded by the slab size (L5: at most 65535 bytes)",
 				fmt.Sprintf("a length is narrowed to %d bytes for a fixed-width CBOR head, but the list can sit in a slab that is exempt from the size limit (%s.anySize: external collision groups), where nothing bounds it: past the head's range the written length wraps around and the register can no longer be decoded", w, strings.Join(unbounded, ", ")))
 		})
 	}
